@@ -194,6 +194,8 @@ def strhex2float(x, signed=True, n_word=None, n_frac=None, return_sizes=False):
         return val
 
 def str2num(x, signed=True, n_word=None, n_frac=None, base=10, return_sizes=False):
+    if isinstance(x, np.ndarray) and x.dtype.kind in 'US':
+        x = x.tolist()      # array of strings inside a list (the rows bin() and hex() return for a 2-dimensional object)
     if isinstance(x, (list, tuple)):
         x = list(x)     # work on a copy: the caller's container is not modified (and tuples are supported)
         _signed_max = False
